@@ -40,8 +40,26 @@ package impl
 
 // MultiScalarMulLowLevel panics on malformed input; its callers must rule that out. (The functional
 // postcondition of the Pippenger branch is not under contract: the window extraction is a closure.)
+// wnd(b, s, i): the integer made of the bits s .. s+i-1 (i <= 16) of the little-endian byte string b, bits beyond
+// the end of b reading as zero.
+//@ pure func wndT(b []byte, s Int, k Int, i Int) Int = ite(k < i && (s + k) / 8 < len(b), ((b[(s + k) / 8] / pow2((s + k) % 8)) % 2) * pow2(k), 0)
+//@ pure func wnd(b []byte, s Int, i Int) Int = wndT(b, s, 0, i) + wndT(b, s, 1, i) + wndT(b, s, 2, i) + wndT(b, s, 3, i) + wndT(b, s, 4, i) + wndT(b, s, 5, i) + wndT(b, s, 6, i) + wndT(b, s, 7, i) + wndT(b, s, 8, i) + wndT(b, s, 9, i) + wndT(b, s, 10, i) + wndT(b, s, 11, i) + wndT(b, s, 12, i) + wndT(b, s, 13, i) + wndT(b, s, 14, i) + wndT(b, s, 15, i)
 //@ func MultiScalarMulLowLevel
 //@   property C14
 //@   bind PP groupptr, P group
 //@   nopanic explicit
 //@   requires len(points) == len(scalars)
+// The Pippenger window of scalar i at bit offset startBit is the mathematical w-bit window of the scalar (all w bits,
+// even when they span three bytes), for every window width 2..16:
+//@   ghostvar a0 int
+//@   loop range(w)#2
+//@     invariant 2 <= w && w <= 16 && start >= 0
+//@     invariant 0 <= acc && acc < pow2($i)
+//@     invariant acc == wnd(b, start, $i)
+//@   assert after "bit := (b[byteIndex] >> shift) & 1": (bit == 0 || bit == 1) && bit == (b[(start + k) / 8] / pow2((start + k) % 8)) % 2 && 0 <= k && k < 16
+//@   ghostset before "acc |= uint(bit) << uint(k)": a0 = acc
+// trusted bit fact at this statement (acc = a0 | bit<<k): OR-ing one bit at position k into a value below 2^k adds it
+//@   free assert after "acc |= uint(bit) << uint(k)": (0 <= a0 && a0 < pow2(k) && (bit == 0 || bit == 1) && 0 <= k && k < 63) ==> acc == a0 + bit * pow2(k)
+//@   assert after "acc |= uint(bit) << uint(k)": acc == a0 + bit * pow2(k) && a0 == wnd(b, start, k) && a0 < pow2(k)
+//@   assert after "acc |= uint(bit) << uint(k)" cases k 0 15: wnd(b, start, k + 1) == wnd(b, start, k) + bit * pow2(k) && pow2(k + 1) == 2 * pow2(k)
+//@   assert after "win := getWindow(scalarBytes[i], startBit)": win == wnd(scalarBytes[i], startBit, w)
